@@ -6,6 +6,8 @@ CONSTANTS
   Shapes = {"", "H", "L", "C", "HC", "LC"}
   Mod = 1
   NCalls = 12
+  NProg = 1
+  Sample = FALSE
   Wide = TRUE
   Dump = TRUE
 INVARIANT NoDangling
